@@ -302,9 +302,10 @@ def apply(c, act, sanity=True):
         # the harness's own log of what the wire carries when clk is entered (wires that need no settling)
         t = len(c.hist[c.bases[0]]) - 1
         for (b, k, _), w in zip(c.specs, c.wires):
-            if k not in ('out', 'sn') and w.get() != ref.expected(k, c.hist[b], t):
-                raise core.HarnessError('wire %s carries %r going into cycle %d, reference says %r'
-                                        % (w.name, w.get(), t, ref.expected(k, c.hist[b], t)))
+            if k not in ('out', 'sn') and w.get() != ref.expected(k, c.hist[b], t) and not getattr(c, 'insane', None):
+                # a watched wire itself does not follow its reference (the register behind it did not do its step): remembered;
+                # only the clauses that do not depend on the values (one sample per cycle, clock lane) can be judged from here on
+                c.insane = 'wire %s carries %r going into cycle %d, reference says %r' % (w.name, w.get(), t, ref.expected(k, c.hist[b], t))
     c.sim.clk(n)
 
 
@@ -357,6 +358,12 @@ def check_node(c, short_too=False):
         raise
     except Exception as e:
         bad.append(('wavedrom', {'raised': _exc(e), 'where': 'get_wavedrom'}))
+    if getattr(c, 'insane', None):
+        bad = [(what, det) for what, det in bad if what in ('length', 'clock_lane')]
+        if not bad:
+            raise core.HarnessError(c.insane)
+        for what, det in bad:
+            det['note'] = 'the watched register itself had stopped following its reference: ' + c.insane
     seen, out = set(), []
     for what, det in bad:
         if what not in seen:
@@ -434,6 +441,7 @@ def put_back(c, st, snap):
     st.restore(s)
     c.wf.data = {k: list(v) for k, v in data}
     c.start = start
+    c.insane = None
     for b in c.bases:
         del c.hist[b][hl:]
 
